@@ -6,7 +6,7 @@
    Meaning of a syntax tree: Matches F r s := CM F true true (lower r) s  (lib/Regex.v), the
    anchored match ^(?s:r)$, with F the Unicode simple-folding relation. *)
 From Coq Require Import List ZArith Bool.
-From Verif Require Import lib.Regex lib.RegexProofs model.FastRegex proof.FastRegexProofs proof.FastRegexProofs2.
+From Verif Require Import lib.Regex lib.RegexProofs model.FastRegex proof.FastRegexProofs proof.FastRegexProofs2 proof.FastRegexProofs3.
 Import ListNotations.
 Open Scope Z_scope.
 
@@ -31,6 +31,36 @@ Theorem C17_string_matcher_internal_cs_partial : forall F NL r m,
   forall s, smm F NL m s = true <-> Matches F r s.
 Proof. intros F NL r m Hwf Hm s. exact (smi_correct F NL NL r Hwf m Hm true true s). Qed.
 
+(* MAIN THEOREM (case-sensitive fragment). For every pattern text that does not take the
+   alternating-literals fast path and every parsed tree without FoldCase flags (wf_csb; parsing
+   itself is trusted), NewFastRegexMatcher's compiled MatchString — set matches, the
+   equality/prefix/suffix/contains/map matchers, the trueMatcher shortcut with its prevLiteral
+   guard, the prefix/suffix/containsInOrder pre-filters, or the regexp fallback — answers
+   exactly the fully anchored expression with '.' matching newlines. Holds for every folding
+   relation F and all oracles NL, TL (they are not consulted in this fragment). *)
+Theorem C17_fast_equals_regex_cs_partial : forall F NL TL pat ast s,
+  wf_csb ast = true ->
+  optimize_alternating_literals NL pat = None ->
+  match_string F NL (new_frm NL TL pat ast) s = true <-> Matches F ast s.
+Proof. exact new_frm_correct_full. Qed.
+
+(* SetMatches, full strength (no fragment restriction): whenever the compiled matcher exposes a
+   non-empty set, a string matches the expression exactly when it is in the set. *)
+Theorem C17_set_matches : forall F NL TL pat ast,
+  optimize_alternating_literals NL pat = None ->
+  set_matches (new_frm NL TL pat ast) <> [] ->
+  forall s, Matches F ast s <-> In s (set_matches (new_frm NL TL pat ast)).
+Proof. exact new_frm_set_exact. Qed.
+
+(* The fast path on the pattern text (never parsed): the matcher and the exposed set are exactly
+   the '|'-separated alternatives of the text (that Go's parser gives such a metacharacter-free
+   text the same meaning is part of the trusted parsing; the harness compares with Go regexp). *)
+Theorem C17_alternating_literals : forall F NL pat m set,
+  optimize_alternating_literals NL pat = Some (m, set) ->
+  (forall s, smm F NL m s = true <-> In s (split_bar pat [])) /\
+  (set <> [] -> forall s, In s set <-> In s (split_bar pat [])).
+Proof. intros F NL. exact (altlit_correct F NL NL). Qed.
+
 (* stringMatcherFromRegexp = clearBeginEndText + the above + the map optimisation
    optimizeEqualOrPrefixStringMatchers (>= 16 equality/prefix alternatives become one
    equalMultiStringMapMatcher with byte-sliced prefix keys): same exactness, against the fully
@@ -40,10 +70,14 @@ Theorem C17_matcher_sound_complete_cs_partial : forall F NL TL r m,
   forall s, smm F NL m s = true <-> Matches F r s.
 Proof. exact smfr_correct. Qed.
 
-(* FULL STATEMENT (not provable, refuted below): forall F (simple folding), NL, TL (Go's
-   toNormalisedLower / strings.ToLower), pat, ast = Parse(pat), s:
-     match_string F NL (new_frm NL TL pat ast) s = re_match F ast s.
-   It fails in the faithful model — and in the real code, see notes/C17.md — in three ways: *)
+(* FULL STATEMENT (C17_fast_equals_regex_cs_partial without wf_csb, with F = Unicode simple
+   folding and NL, TL = Go's toNormalisedLower / strings.ToLower):
+     forall pat ast s, optimize_alternating_literals NL pat = None ->
+       match_string F NL (new_frm NL TL pat ast) s = true <-> Matches F ast s.
+   Missing: the case-insensitive paths (EqualFold, prefixCaseInsensitiveMatchLen, ci set
+   matches). For the case-insensitive MAP matcher the statement is false of the faithful
+   model and of the real code ((2), (3) below; known findings). (1) is the defect found while
+   proving the trueMatcher case; it is fixed in /repo and the model follows the fix. *)
 
 (* (1) [FIXED in /repo by d2b0409570; new_frm_old is the model of the code before the fix]
    trueMatcher + containsInOrder when clearCapture leaves two ADJACENT literal nodes in a
@@ -70,6 +104,17 @@ Theorem C17_ci_map_prefix_refuted :
   match_string (fold_of ci_orbits) (tabf ci_nl) (new_frm (tabf ci_nl) (tabf []) cik_pat cik_ast) [8490; 120] = false /\
   re_match (fold_of ci_orbits) cik_ast [8490; 120] = true.
 Proof. exact ci_map_prefix_refuted. Qed.
+
+(* non-vacuity: a tree in the fragment going through the map + prefix-key optimisation *)
+Example C17_nonvacuous_main :
+  let ast := RConcat [RStar RAny; RLit false [102; 111; 111]; RPlus RAnyNotNL] in
+  wf_csb ast = true /\
+  optimize_alternating_literals (fun b => b) [46; 42; 102; 111; 111; 46; 43] = None /\
+  match_string (fun _ _ => false) (fun b => b)
+    (new_frm (fun b => b) (fun b => b) [46; 42; 102; 111; 111; 46; 43] ast) [120; 102; 111; 111; 121] = true /\
+  match_string (fun _ _ => false) (fun b => b)
+    (new_frm (fun b => b) (fun b => b) [46; 42; 102; 111; 111; 46; 43] ast) [120; 102; 111; 111] = false.
+Proof. vm_compute. auto. Qed.
 
 Example C17_nonvacuous_set :
   fsm (RConcat [RLit false [102; 111; 111]; RAlt [RLit false [49]; RClass false [(97, 98)]]]) []
